@@ -374,7 +374,9 @@ fn u1(ctx: &mut Ctx) {
 
 pub fn run(ctx: &mut Ctx) {
     if ctx.family_active("u0") && !ctx.slow_tool {
+        ctx.set_enumerated(true);
         u0(ctx);
+        ctx.set_enumerated(false);
     }
     if ctx.family_active("u1") {
         u1(ctx);
